@@ -46,7 +46,24 @@ Report(gap) ==
   /\ IF seen THEN AddSample(gap) ELSE AddSample(B)
   /\ seen' = TRUE
 
-Next == \E gap \in Gaps : Report(gap)
+\* SuspicionLevelAt for a peer that has no window (never heard from, or removed):
+\* the time of the query counts as its first arrival (the bootstrap sample)
+FirstQuery ==
+  /\ ~seen
+  /\ Len(hist) < MaxLen
+  /\ AddSample(B)
+  /\ seen' = TRUE
+
+\* accrualFailureDetector.Remove: the peer's window is discarded; whatever is
+\* heard from it (or from any other peer) afterwards starts from an empty window
+Remove ==
+  /\ seen
+  /\ buf' = [i \in 0..(W - 1) |-> 0]
+  /\ index' = 0 /\ isFull' = FALSE /\ sum' = 0
+  /\ seen' = FALSE
+  /\ hist' = <<>>
+
+Next == (\E gap \in Gaps : Report(gap)) \/ FirstQuery \/ Remove
 Spec == Init /\ [][Next]_vars
 
 -----------------------------------------------------------------------------
